@@ -223,17 +223,92 @@ theorem contains_iff_cs (ws : List String) (w : String) :
   · intro h; exact ⟨w, h, rfl⟩
   · rintro ⟨x, hx, rfl⟩; exact hx
 
-theorem classify_eq_spec_aux (instrs macros regs pre : List String) (w : String)
+theorem classifyOrdered_eq_spec_aux (instrs macros regs pre : List String) (w : String)
     (h1 : ∀ x ∈ instrs, PlainL x.toList) (h2 : ∀ x ∈ macros, PlainL x.toList)
     (h3 : ∀ x ∈ regs, PlainL x.toList) (h4 : ∀ x ∈ pre, PlainL x.toList) (hw : PlainL w.toList) :
-    classify instrs macros regs pre w = classifySpec instrs macros regs pre w := by
+    classifyOrdered instrs macros regs pre w = classifySpec instrs macros regs pre w := by
   simp only [classifySpec, contains_toLower_iff]
-  simp only [classify, firstMatch_isSome_wordList true _ w h1 hw,
+  simp only [classifyOrdered, firstMatch_isSome_wordList true _ w h1 hw,
     firstMatch_isSome_wordList true _ w h2 hw, firstMatch_isSome_wordList true _ w h3 hw,
     takesWhole_wordList true _ w h1 hw, takesWhole_wordList true _ w h2 hw,
     takesWhole_wordList true _ w h3 hw, takesWhole_wordList false _ w h4 hw,
     contains_iff_cs]
   repeat' split
   all_goals first | rfl | contradiction
+
+/-! ## longest-first ordering of the alternatives -/
+
+theorem insertByLen_perm (x : String) (l : List String) : (insertByLen x l).Perm (x :: l) := by
+  induction l with
+  | nil => exact List.Perm.refl _
+  | cons y ys ih =>
+    unfold insertByLen
+    split
+    · exact List.Perm.refl _
+    · exact (List.Perm.cons y ih).trans (List.Perm.swap x y ys)
+
+theorem sortByLenDesc_perm (l : List String) : (sortByLenDesc l).Perm l := by
+  induction l with
+  | nil => exact List.Perm.refl _
+  | cons x xs ih =>
+    show (insertByLen x (sortByLenDesc xs)).Perm (x :: xs)
+    exact (insertByLen_perm x _).trans (List.Perm.cons x ih)
+
+theorem mem_sortByLenDesc (l : List String) (x : String) : x ∈ sortByLenDesc l ↔ x ∈ l :=
+  (sortByLenDesc_perm l).mem_iff
+
+theorem classifySpec_perm (i i' m m' r r' p p' : List String) (w : String)
+    (hi : ∀ x, x ∈ i' ↔ x ∈ i) (hm : ∀ x, x ∈ m' ↔ x ∈ m) (hr : ∀ x, x ∈ r' ↔ x ∈ r) (hp : ∀ x, x ∈ p' ↔ x ∈ p) :
+    classifySpec i' m' r' p' w = classifySpec i m r p w := by
+  have key : ∀ (a b : List String) (f : String → String) (y : String), (∀ x, x ∈ a ↔ x ∈ b) →
+      (a.map f).contains y = (b.map f).contains y := by
+    intro a b f y h
+    rw [Bool.eq_iff_iff]
+    simp only [List.contains_iff_mem, List.mem_map, h]
+  have key2 : ∀ (a b : List String) (y : String), (∀ x, x ∈ a ↔ x ∈ b) → a.contains y = b.contains y := by
+    intro a b y h
+    rw [Bool.eq_iff_iff]
+    simp only [List.contains_iff_mem, h]
+  simp only [classifySpec, key i' i _ _ hi, key m' m _ _ hm, key r' r _ _ hr, key2 p' p _ hp]
+
+theorem classify_eq_spec_aux (instrs macros regs pre : List String) (w : String)
+    (h1 : ∀ x ∈ instrs, PlainL x.toList) (h2 : ∀ x ∈ macros, PlainL x.toList)
+    (h3 : ∀ x ∈ regs, PlainL x.toList) (h4 : ∀ x ∈ pre, PlainL x.toList) (hw : PlainL w.toList) :
+    classify instrs macros regs pre w = classifySpec instrs macros regs pre w := by
+  unfold classify
+  rw [classifyOrdered_eq_spec_aux _ _ _ _ w
+    (fun x hx => h1 x ((mem_sortByLenDesc _ _).1 hx)) (fun x hx => h2 x ((mem_sortByLenDesc _ _).1 hx))
+    (fun x hx => h3 x ((mem_sortByLenDesc _ _).1 hx)) (fun x hx => h4 x ((mem_sortByLenDesc _ _).1 hx)) hw]
+  exact classifySpec_perm _ _ _ _ _ _ _ _ w (mem_sortByLenDesc _) (mem_sortByLenDesc _) (mem_sortByLenDesc _)
+    (mem_sortByLenDesc _)
+
+/-- the sorted list is ordered by non-increasing length -/
+theorem insertByLen_sorted (x : String) (l : List String)
+    (h : l.Pairwise fun a b => b.length ≤ a.length) :
+    (insertByLen x l).Pairwise fun a b => b.length ≤ a.length := by
+  induction l with
+  | nil => simp [insertByLen]
+  | cons y ys ih =>
+    unfold insertByLen
+    rcases List.pairwise_cons.1 h with ⟨hy, hys⟩
+    split
+    · rename_i hle
+      refine List.pairwise_cons.2 ⟨?_, h⟩
+      intro b hb
+      rcases List.mem_cons.1 hb with rfl | hb
+      · exact hle
+      · exact Nat.le_trans (hy b hb) hle
+    · rename_i hnle
+      refine List.pairwise_cons.2 ⟨?_, ih hys⟩
+      intro b hb
+      rcases List.mem_cons.1 ((insertByLen_perm x ys).mem_iff.1 hb) with rfl | hb
+      · omega
+      · exact hy b hb
+
+theorem sortByLenDesc_sorted (l : List String) :
+    (sortByLenDesc l).Pairwise fun a b => b.length ≤ a.length := by
+  induction l with
+  | nil => simp [sortByLenDesc]
+  | cons x xs ih => exact insertByLen_sorted x _ ih
 
 end BV
